@@ -49,6 +49,7 @@ func runC14(c *Ctx) {
 	c.Rule("R14.3", 5, "main: every error becomes a message and a non-zero exit, never a stack trace")
 	c.Rule("R14.4", 4, "entry points never return success with a nil result")
 	c.Rule("R14.5", 1, "a pointer field that some constructor leaves nil is dereferenced only under a nil test")
+	c.Rule("R14.6", 3, "every recursion in module code descends structurally on an argument (its depth is bounded by the nesting of a value, not by the length of the input)")
 
 	c.mute = map[string]bool{"R4.2": true}
 	g := extractEBNF(c, "R14.2")
@@ -118,6 +119,12 @@ func runC14(c *Ctx) {
 	}
 
 	checkCursorInvariant(c, covered)
+	// (I) the in-memory reader of the built-in scanner: slices of the text are in bounds by the cursor invariant
+	if rd := findReader(c, "R14.2"); rd != nil && rd.kind == "mem" {
+		for pos := range checkMemReader(c, "R14.2", rd) {
+			covered[pos] = true
+		}
+	}
 
 	// inventory over reachable module functions
 	ri := c.reachableFrom(entryPoints(c)...)
@@ -211,6 +218,7 @@ func runC14(c *Ctx) {
 	checkMainExit(c, "R14.3")
 	checkNilSuccess(c, ri)
 	checkNilableFields(c, scope)
+	checkRecursion(c, ri, scope)
 	if c.Tier == "thorough" {
 		crossCheckBCE(c, scope, examinedLines)
 	}
@@ -1350,4 +1358,445 @@ func methodEnsuresField(m *ssa.Function, field int) bool {
 		_ = ret
 	}
 	return nRet > 0
+}
+
+// checkRecursion: R14.6. A goroutine stack is finite and its exhaustion is a fatal error with a stack trace, not an error
+// value. A recursion is acceptable when each trip round the cycle passes a strictly smaller piece of one of its arguments
+// (a field, an element, a sub-tree): its depth is then bounded by the nesting depth of that value. A cycle none of whose
+// call edges descends (for example a scanner that calls itself for every skipped token) has a depth that grows with how
+// much input is consumed.
+func checkRecursion(c *Ctx, ri *reachInfo, scope []*ssa.Function) {
+	inScope := map[*ssa.Function]bool{}
+	for _, f := range scope {
+		inScope[f] = true
+	}
+	type edge struct {
+		to       *ssa.Function
+		site     ssa.CallInstruction
+		descends bool
+	}
+	adj := map[*ssa.Function][]edge{}
+	for _, f := range scope {
+		n := ri.res.CallGraph.Nodes[f]
+		if n == nil {
+			continue
+		}
+		for _, e := range n.Out {
+			g := e.Callee.Func
+			if !inScope[g] || e.Site == nil {
+				continue
+			}
+			if e.Site.Common().StaticCallee() == nil && !e.Site.Common().IsInvoke() {
+				continue // a call of a function value: RTA resolves it by signature only; resolved by value flow below
+			}
+			adj[f] = append(adj[f], edge{g, e.Site, descendsOnParam(f, e.Site) || depthGuarded(f, e.Site)})
+		}
+		// calls of function values: the functions that can flow into the called value (closures and method values built
+		// in this function, or stored into the struct field it is loaded from)
+		allCalls(f, func(site ssa.CallInstruction) {
+			if site.Common().StaticCallee() != nil || site.Common().IsInvoke() {
+				return
+			}
+			if _, isBuiltin := site.Common().Value.(*ssa.Builtin); isBuiltin {
+				return
+			}
+			for _, g := range funcValuesOf(c, site.Common().Value) {
+				if inScope[g] {
+					adj[f] = append(adj[f], edge{g, site, descendsOnParam(f, site) || depthGuarded(f, site)})
+				}
+			}
+		})
+		// a closure created by f and called later runs no deeper than f's frame count allows; treat creation as an edge
+		for _, af := range f.AnonFuncs {
+			if inScope[af] {
+				adj[f] = append(adj[f], edge{af, nil, true})
+			}
+		}
+	}
+	// Tarjan
+	index, low, onStack := map[*ssa.Function]int{}, map[*ssa.Function]int{}, map[*ssa.Function]bool{}
+	var stack []*ssa.Function
+	var sccs [][]*ssa.Function
+	idx := 0
+	var strong func(v *ssa.Function)
+	strong = func(v *ssa.Function) {
+		idx++
+		index[v], low[v] = idx, idx
+		stack = append(stack, v)
+		onStack[v] = true
+		for _, e := range adj[v] {
+			if index[e.to] == 0 {
+				strong(e.to)
+				if low[e.to] < low[v] {
+					low[v] = low[e.to]
+				}
+			} else if onStack[e.to] && index[e.to] < low[v] {
+				low[v] = index[e.to]
+			}
+		}
+		if low[v] == index[v] {
+			var comp []*ssa.Function
+			for {
+				w := stack[len(stack)-1]
+				stack = stack[:len(stack)-1]
+				onStack[w] = false
+				comp = append(comp, w)
+				if w == v {
+					break
+				}
+			}
+			sccs = append(sccs, comp)
+		}
+	}
+	for _, f := range scope {
+		if index[f] == 0 {
+			strong(f)
+		}
+	}
+	nCyc := 0
+	for _, comp := range sccs {
+		in := map[*ssa.Function]bool{}
+		for _, f := range comp {
+			in[f] = true
+		}
+		cyclic := len(comp) > 1
+		for _, e := range adj[comp[0]] {
+			if e.to == comp[0] {
+				cyclic = true
+			}
+		}
+		if !cyclic {
+			continue
+		}
+		nCyc++
+		sort.Slice(comp, func(i, j int) bool { return comp[i].String() < comp[j].String() })
+		var names []string
+		for _, f := range comp {
+			names = append(names, shortFn(f))
+		}
+		// remove descending edges; is there still a cycle inside the component?
+		flat := map[*ssa.Function][]edge{}
+		for _, f := range comp {
+			for _, e := range adj[f] {
+				if in[e.to] && !e.descends {
+					flat[f] = append(flat[f], e)
+				}
+			}
+		}
+		color := map[*ssa.Function]int{}
+		var cyc []string
+		var pos token.Pos
+		var dfs func(v *ssa.Function, path []string) bool
+		dfs = func(v *ssa.Function, path []string) bool {
+			color[v] = 1
+			for _, e := range flat[v] {
+				if color[e.to] == 1 {
+					cyc = append(append([]string{}, path...), shortFn(v), shortFn(e.to))
+					if e.site != nil {
+						pos = e.site.Pos()
+					}
+					return true
+				}
+				if color[e.to] == 0 && dfs(e.to, append(path, shortFn(v))) {
+					return true
+				}
+			}
+			color[v] = 2
+			return false
+		}
+		bad := false
+		for _, f := range comp {
+			if color[f] == 0 && dfs(f, nil) {
+				bad = true
+				break
+			}
+		}
+		if len(names) > 6 {
+			names = append(names[:6], fmt.Sprintf("… (%d functions)", len(comp)))
+		}
+		c.Check("R14.6", "recursion through "+strings.Join(names, ", ")+" descends on an argument", pos, !bad,
+			"the cycle "+strings.Join(cyc, " → ")+" passes on only its own parameters (or values not taken out of them): nothing gets structurally smaller, so the depth of the recursion grows with the amount of input consumed and a long enough input ends in `fatal error: stack overflow` and a stack trace",
+			"a specification with several hundred thousand consecutive comment lines")
+	}
+	if nCyc == 0 {
+		c.Pass("R14.6", "no recursion in the module functions in scope", token.NoPos, "")
+	}
+	c.Extra("recursive_components", nCyc)
+}
+
+// descendsOnParam: some argument of the call (receiver included) is obtained from a parameter (or free variable) of the caller
+// through at least one projection: a field, an element, a map value, the value of a range iteration, a type assertion of one.
+func descendsOnParam(f *ssa.Function, site ssa.CallInstruction) bool {
+	isOrigin := func(v ssa.Value) bool {
+		switch v.(type) {
+		case *ssa.Parameter, *ssa.FreeVar:
+			return true
+		}
+		return false
+	}
+	var proj func(v ssa.Value, steps int, depth int, seen map[ssa.Value]bool) bool
+	proj = func(v ssa.Value, steps int, depth int, seen map[ssa.Value]bool) bool {
+		if v == nil || depth > 40 || seen[v] {
+			return false
+		}
+		seen[v] = true
+		if isOrigin(v) {
+			return steps > 0
+		}
+		switch x := v.(type) {
+		case *ssa.UnOp:
+			if x.Op == token.MUL {
+				// load: through a field/element address counts as a step; a plain local cell does not
+				switch a := x.X.(type) {
+				case *ssa.FieldAddr:
+					return proj(a.X, steps+1, depth+1, seen)
+				case *ssa.IndexAddr:
+					return proj(a.X, steps+1, depth+1, seen)
+				case *ssa.Alloc:
+					for _, r := range *a.Referrers() {
+						if st, ok := r.(*ssa.Store); ok && st.Addr == ssa.Value(a) && proj(st.Val, steps, depth+1, seen) {
+							return true
+						}
+					}
+					return false
+				default:
+					return proj(x.X, steps, depth+1, seen)
+				}
+			}
+			return proj(x.X, steps, depth+1, seen)
+		case *ssa.Field:
+			return proj(x.X, steps+1, depth+1, seen)
+		case *ssa.Index:
+			return proj(x.X, steps+1, depth+1, seen)
+		case *ssa.Lookup:
+			return proj(x.X, steps+1, depth+1, seen)
+		case *ssa.Extract:
+			return proj(x.Tuple, steps, depth+1, seen)
+		case *ssa.Next:
+			return proj(x.Iter, steps+1, depth+1, seen)
+		case *ssa.Range:
+			return proj(x.X, steps, depth+1, seen)
+		case *ssa.TypeAssert:
+			return proj(x.X, steps, depth+1, seen)
+		case *ssa.ChangeInterface:
+			return proj(x.X, steps, depth+1, seen)
+		case *ssa.ChangeType:
+			return proj(x.X, steps, depth+1, seen)
+		case *ssa.MakeInterface:
+			return proj(x.X, steps, depth+1, seen)
+		case *ssa.Convert:
+			return proj(x.X, steps, depth+1, seen)
+		case *ssa.Slice:
+			// a proper sub-slice is smaller when a bound is given
+			if x.Low != nil || x.High != nil {
+				return proj(x.X, steps+1, depth+1, seen)
+			}
+			return proj(x.X, steps, depth+1, seen)
+		case *ssa.Phi:
+			for _, e := range x.Edges {
+				if proj(e, steps, depth+1, seen) {
+					return true
+				}
+			}
+		case *ssa.FieldAddr:
+			return proj(x.X, steps+1, depth+1, seen)
+		case *ssa.IndexAddr:
+			return proj(x.X, steps+1, depth+1, seen)
+		}
+		return false
+	}
+	for _, a := range site.Common().Args {
+		if proj(a, 0, 0, map[ssa.Value]bool{}) {
+			return true
+		}
+	}
+	if site.Common().IsInvoke() && proj(site.Common().Value, 0, 0, map[ssa.Value]bool{}) {
+		return true
+	}
+	return false
+}
+
+// depthGuarded: the call site is reached only after the function has counted itself in against a constant bound: a field of
+// the receiver is compared with a constant, the function returns without calling when the bound is reached, and the field is
+// incremented on the other branch before the call. The depth of a recursion through this function is then at most the bound.
+func depthGuarded(f *ssa.Function, site ssa.CallInstruction) bool {
+	if len(f.Params) == 0 || f.Signature.Recv() == nil {
+		return false
+	}
+	recv := ssa.Value(f.Params[0])
+	for _, b := range f.Blocks {
+		for _, in := range b.Instrs {
+			st, ok := in.(*ssa.Store)
+			if !ok {
+				continue
+			}
+			fa, ok := st.Addr.(*ssa.FieldAddr)
+			if !ok || !isSameOrSpilled(fa.X, recv) {
+				continue
+			}
+			bo, ok := st.Val.(*ssa.BinOp)
+			if !ok || bo.Op != token.ADD || !isConstInt(bo.Y, 1) || !loadOfField(bo.X, recv, fa.Field) {
+				continue
+			}
+			// the increment dominates the call
+			sb := site.Block()
+			if !(b == sb && instrIndex(st) < instrIndex(site.(ssa.Instruction))) && !(b != sb && b.Dominates(sb)) {
+				continue
+			}
+			// and is itself taken only below a constant bound on the same field
+			for _, cd := range controlConds(b) {
+				cmp, ok := cd.v.(*ssa.BinOp)
+				if !ok || !loadOfField(cmp.X, recv, fa.Field) {
+					continue
+				}
+				if k, ok := cmp.Y.(*ssa.Const); !ok || k.Value == nil {
+					continue
+				}
+				below := (cmp.Op == token.GEQ && !cd.pol) || (cmp.Op == token.GTR && !cd.pol) || (cmp.Op == token.LSS && cd.pol) || (cmp.Op == token.LEQ && cd.pol) || (cmp.Op == token.EQL && !cd.pol)
+				if below {
+					return true
+				}
+			}
+		}
+	}
+	return false
+}
+
+// funcValuesOf: the functions that may flow into value v, followed backwards through conversions, closures, calls (a
+// combinator returns a function built from its arguments), variadic slices, phis and loads of struct fields (every value stored
+// into that field anywhere in the program's module packages).
+func funcValuesOf(c *Ctx, v ssa.Value) []*ssa.Function {
+	out := map[*ssa.Function]bool{}
+	seen := map[ssa.Value]bool{}
+	seenField := map[string]bool{}
+	var walk func(v ssa.Value, depth int)
+	walk = func(v ssa.Value, depth int) {
+		if v == nil || seen[v] || depth > 60 {
+			return
+		}
+		seen[v] = true
+		switch x := v.(type) {
+		case *ssa.Function:
+			out[x] = true
+		case *ssa.MakeClosure:
+			if fn, ok := x.Fn.(*ssa.Function); ok {
+				out[fn] = true
+			}
+			for _, b := range x.Bindings {
+				walk(b, depth+1)
+			}
+		case *ssa.ChangeType:
+			walk(x.X, depth+1)
+		case *ssa.MakeInterface:
+			walk(x.X, depth+1)
+		case *ssa.ChangeInterface:
+			walk(x.X, depth+1)
+		case *ssa.TypeAssert:
+			walk(x.X, depth+1)
+		case *ssa.Extract:
+			walk(x.Tuple, depth+1)
+		case *ssa.Phi:
+			for _, e := range x.Edges {
+				walk(e, depth+1)
+			}
+		case *ssa.Call:
+			walk(x.Call.Value, depth+1)
+			for _, a := range x.Call.Args {
+				walk(a, depth+1)
+			}
+		case *ssa.Slice:
+			walk(x.X, depth+1)
+		case *ssa.Alloc:
+			for _, r := range *x.Referrers() {
+				switch in := r.(type) {
+				case *ssa.Store:
+					if in.Addr == ssa.Value(x) {
+						walk(in.Val, depth+1)
+					}
+				case *ssa.IndexAddr:
+					for _, rr := range *in.Referrers() {
+						if st, ok := rr.(*ssa.Store); ok && st.Addr == ssa.Value(in) {
+							walk(st.Val, depth+1)
+						}
+					}
+				}
+			}
+		case *ssa.UnOp:
+			if x.Op != token.MUL {
+				return
+			}
+			switch a := x.X.(type) {
+			case *ssa.Alloc:
+				walk(a, depth+1)
+			case *ssa.FieldAddr:
+				T := a.X.Type()
+				if pt, ok := T.Underlying().(*types.Pointer); ok {
+					T = pt.Elem()
+				}
+				key := fmt.Sprintf("%s#%d", T.String(), a.Field)
+				if seenField[key] {
+					return
+				}
+				seenField[key] = true
+				for _, st := range c.fieldStores(T, a.Field) {
+					walk(st.Val, depth+1)
+				}
+			}
+		}
+	}
+	walk(v, 0)
+	var res []*ssa.Function
+	for f := range out {
+		res = append(res, f)
+	}
+	sort.Slice(res, func(i, j int) bool { return res[i].String() < res[j].String() })
+	return res
+}
+
+// fieldStores: every store to field #idx of struct type T in the module's functions.
+func (c *Ctx) fieldStores(T types.Type, idx int) []*ssa.Store {
+	if c.fieldStoreIdx == nil {
+		c.fieldStoreIdx = map[string][]*ssa.Store{}
+		for path, sp := range c.SSAPk {
+			if sp == nil || !strings.HasPrefix(path, modPath) {
+				continue
+			}
+			for _, f := range allFuncsOfPkgDeep(sp) {
+				for _, b := range f.Blocks {
+					for _, in := range b.Instrs {
+						st, ok := in.(*ssa.Store)
+						if !ok {
+							continue
+						}
+						fa, ok := st.Addr.(*ssa.FieldAddr)
+						if !ok {
+							continue
+						}
+						FT := fa.X.Type()
+						if pt, ok := FT.Underlying().(*types.Pointer); ok {
+							FT = pt.Elem()
+						}
+						k := fmt.Sprintf("%s#%d", FT.String(), fa.Field)
+						c.fieldStoreIdx[k] = append(c.fieldStoreIdx[k], st)
+					}
+				}
+			}
+		}
+	}
+	return c.fieldStoreIdx[fmt.Sprintf("%s#%d", T.String(), idx)]
+}
+
+func allFuncsOfPkgDeep(p *ssa.Package) []*ssa.Function {
+	var out []*ssa.Function
+	var add func(f *ssa.Function)
+	add = func(f *ssa.Function) {
+		out = append(out, f)
+		for _, a := range f.AnonFuncs {
+			add(a)
+		}
+	}
+	for _, f := range allFuncsOfPkg(p) {
+		add(f)
+	}
+	return out
 }
